@@ -34,7 +34,7 @@ def staleFlag : List Label :=
 
 theorem pinned_exits_under_a_connection : verdict Shape.pinned cfg3 staleFlag = some true := by decide +kernel
 /-- the second repair alone does not help -/
-theorem only_stale_timer_fix_exits_under_a_connection : verdict ⟨false, true⟩ cfg3 staleFlag = some true := by
+theorem only_stale_timer_fix_exits_under_a_connection : verdict ⟨false, true, false⟩ cfg3 staleFlag = some true := by
   decide +kernel
 /-- with the flag cleared on accept the loop cannot leave there: `check true` is not a step -/
 theorem repaired_does_not_exit : verdict Shape.repaired cfg3 staleFlag = none := by decide +kernel
@@ -54,14 +54,40 @@ def staleCallback : List Label :=
 
 theorem pinned_exits_early : verdict Shape.pinned cfg6 staleCallback = some true := by decide +kernel
 /-- the first repair alone does not help -/
-theorem only_flag_fix_exits_early : verdict ⟨true, false⟩ cfg6 staleCallback = some true := by decide +kernel
+theorem only_flag_fix_exits_early : verdict ⟨true, false, false⟩ cfg6 staleCallback = some true := by decide +kernel
 /-- the stale callback also discards the newer timer: `timer = None` although timer 2 is armed -/
 theorem stale_callback_discards_timer :
-    ((ts ⟨true, false⟩ cfg6).run (staleCallback.take 17)).map (fun s => (s.timer, s.tstate 2)) = some (none, .armed) := by
+    ((ts ⟨true, false, false⟩ cfg6).run (staleCallback.take 17)).map (fun s => (s.timer, s.tstate 2)) = some (none, .armed) := by
   decide +kernel
 theorem repaired_ignores_stale_callback : verdict Shape.repaired cfg6 staleCallback = none := by decide +kernel
 theorem repaired_keeps_timer :
     ((ts Shape.repaired cfg6).run (staleCallback.take 17)).map (fun s => (s.timer, s.flag)) = some (some 2, false) := by
+  decide +kernel
+
+/-- seeded change C33-4 — the connection is counted by its OWN thread (`regInHandler`), both repairs kept: connection 0 comes
+and goes, timer 1 is due at t = 3; connection 1 is accepted at t = 3 and its thread is started but does not get to run; the
+timer fires and its callback sees `conn_count == 0`; one accept timeout later the loop leaves although connection 1 was
+accepted and nobody has served it yet (it is counted and served only afterwards) -/
+def lateCount : List Label :=
+  [.sockAccept 0, .addActive, .spawn, .hregister 0, .serveBegin 0, .serveEnd 0, .handlerEnd 0 true,
+   .tick 3, .sockAccept 1, .addActive, .spawn, .fire 1, .callback 1,
+   .tick 4, .acceptTimeout, .check true,
+   .hregister 1, .serveBegin 1]
+
+theorem handler_side_count_exits_under_a_connection :
+    verdict ⟨true, true, true⟩ cfg3 lateCount = some true := by decide +kernel
+/-- the counting section in the accept loop is not a step of that shape, and vice versa -/
+theorem handler_side_count_has_no_loop_register :
+    verdict ⟨true, true, true⟩ cfg3 [.sockAccept 0, .register] = none ∧
+    verdict Shape.repaired cfg3 [.sockAccept 0, .addActive] = none ∧
+    verdict Shape.repaired cfg3 [.sockAccept 0, .register, .addActive, .spawn, .hregister 0] = none := by decide +kernel
+/-- in the repaired shape the same arrival is harmless: the loop counts the connection (and clears the flag) before the
+thread exists, however late the thread runs -/
+theorem loop_side_count_survives_late_thread :
+    verdict Shape.repaired cfg3
+      [.sockAccept 0, .register, .addActive, .spawn, .serveBegin 0, .serveEnd 0, .handlerEnd 0 true,
+       .tick 3, .sockAccept 1, .fire 1, .callback 1, .register, .addActive, .spawn,
+       .tick 4, .acceptTimeout, .check false, .tick 4, .acceptTimeout, .check false, .serveBegin 1] = some false := by
   decide +kernel
 
 end Loop
